@@ -89,8 +89,14 @@ def gen_cases(chk, distinct, stats):
     sel |= set(range(2000, 10000, 100))
     while len(sel) < 160:
         sel.add(rng.randint(FIRST, LAST))
+    # whole-number serials (time 00:00:00) take their own path through a formatter easily: every day of
+    # 1900, of the last year, of a leap year, of both kinds of century year and of one seeded year is
+    # always displayed at midnight, and so are the edge days of every year
+    midnight = {FIRST, LAST, 2024, 2000, 2100, rng.randint(FIRST + 1, LAST - 1)}
     edges = []
     for y in range(FIRST, LAST + 1):
+        if y in midnight:
+            yield days_case(y, 0, True)
         if thorough:
             r = rng.randrange(86400)
             for sod in (0, 43200, 86399):
@@ -103,7 +109,8 @@ def gen_cases(chk, distinct, stats):
                                               [rng.randrange(86400)] * 3), True)
         edges += [[y, 1, 1], [y, 2, 28]] + ([[y, 2, 29]] if is_leap(y) else []) + [[y, 3, 1], [y, 12, 31]]
         if len(edges) >= 360 or y == LAST:
-            yield days_case(edges[0][0], rng.choice([0, 86399, rng.randrange(86400)]), True, days=edges)
+            yield days_case(edges[0][0], 0, True, days=edges)
+            yield days_case(edges[0][0], rng.choice([86399, 43200, rng.randrange(1, 86400)]), True, days=edges)
             edges = []
     # 4. every second of representative days
     rep = [(1900, 2, 28), (9999, 12, 31)]
@@ -297,7 +304,8 @@ def run(chk):
         "'gives the value defined by the date system' is read for a binary double as: integer part = day number "
         "exactly, fraction within 2^-13 s (0.12 ms; 3 ulp of the largest serial) of seconds/86400",
         "the displayed text is checked for the number format 'yyyy-mm-dd hh:mm:ss' only (quick: every day of 160 "
-        "selected years, the edge days of every year, 1/12 of the seconds; thorough: every day of every third "
+        "selected years at one time of day, every day of 1900, 9999, 2024, 2000, 2100 and a seeded year at 00:00:00, "
+        "the edge days of every year at 00:00:00 and at another time, 1/12 of the seconds; thorough: every day of every third "
         "year as well, 1/3 of the seconds)",
     ]
 
